@@ -11,7 +11,8 @@ if os.path.exists(hp):
 for p in props:
     pid = p["id"]
     path = os.path.join(VERIF, "checks", pid + ".py")
-    if not os.path.exists(path):
+    ready = set(open(os.path.join(VERIF, "checks", "READY.txt")).read().split())
+    if not os.path.exists(path) or pid not in ready:
         na.append({"property_id": pid, "reason": "no check registered yet: model/proof/harness for this property are not built (build order in DESIGN.md section 7); not claimed"})
         continue
     spec = importlib.util.spec_from_file_location("cfg_" + pid, path)
